@@ -146,11 +146,11 @@ Proof.
     apply listed_cfgb_spec in El. unfold prop_trusted.
     destruct (o_view (k_obs c)) as [ov|]; [|reflexivity].
     destruct (view_corr_fields _ _ _ Hf) as (Em & Es & Eh & Ep & Eq & Ei & _).
-    assert (Ev : s_view s = _) :=
-      trusted_overrides_gen (o_parse_uri c) true _ _ (conn_of (o_split c) (k_req c)) (parse_headers (k_raw c))
+    pose proof (trusted_overrides_gen (o_parse_uri c) true _ _ (conn_of (o_split c) (k_req c)) (parse_headers (k_raw c))
         (configured_wf _ _ _ Hnet (k_mode c) (k_cfg c))
         (eq_ind_r wf_ip (peer_addr_wf _ _ _ Hnet (r_remote (k_req c))) (peer_is_peer_addr _ _ _ Hnet (r_remote (k_req c))))
-        (trusted_cfg _ _ _ _ Hnet (k_mode c) (k_cfg c) (k_req c) El).
+        (trusted_cfg _ _ _ Hnet (k_mode c) (k_cfg c) (k_req c) El)) as Ev.
+    fold (handle (o_parse_uri c) (o_parse_ip c) (o_parse_cidr c) (o_split c) true (k_mode c) (k_cfg c) (k_req c) (k_raw c)) in Ev.
     fold s in Ev. rewrite Em, Es, Eh, Ep, Eq, Ei, Ev. cbv zeta.
     cbn [v_method v_scheme v_host v_rawpath v_query v_ips].
     rewrite !hdr_parse by reflexivity. unfold conn_of, scheme_ofb.
